@@ -253,6 +253,13 @@ def model_line(init, steps):
 
 
 # ---- the check ---------------------------------------------------------------------------
+def case_src(case):
+    """Source description of a case: bundled algorithm file or synthesised kernels+calls."""
+    if case.get("alg_file"):
+        return {"alg_file": case["alg_file"]}
+    return {"kernels": case["kernels"], "calls": case["calls"]}
+
+
 def judge(chk, case, real, mo, dist):
     """Compare one history; returns a violation payload or None."""
     m = parse_sx(mo) if mo.startswith("(") else None
@@ -266,6 +273,7 @@ def judge(chk, case, real, mo, dist):
     dist["refused_steps"] += len(real["results"]) - sum(real["results"])
     dist["gen_ok" if gen_ok else "gen_fail"] += 1
     dist["crash_instead_of_refusal"] += sum(1 for m in real["messages"] if m and m.startswith("CRASH"))
+    dist["da_assumption_broken"] += 1 if real["da_assumption"] else 0
     for st, r in zip(real["steps"], real["results"]):
         dist.setdefault(st[0] + (":ok" if r else ":refused"), 0)
         dist[st[0] + (":ok" if r else ":refused")] += 1
@@ -275,44 +283,53 @@ def judge(chk, case, real, mo, dist):
         bad = real["unsafe_final"]
     elif gen_ok and real["colours_in_omp"]:
         bad = real["colours_in_omp"]
+    src = case_src(case)
     if bad:
-        return {"kind": "failing-input", "kernels": case["kernels"], "calls": case["calls"], "dm": case["dm"],
-                "steps": real["steps"], "observed": "all steps with result 1 accepted %s, code generated; %s"
-                % (real["results"], bad),
-                "expected": "the parallelisation of the uncoloured loop is refused (or generation refuses)",
-                "schedule": real["final"]}
-    if not agreed:
-        chk.correspondence_broken("real transformations differ from C23.runSkip", {"init": real["init"], "steps": real["steps"],
-                                                                                 "dm": case["dm"], "kernels": case["kernels"],
-                                                                                 "calls": case["calls"]},
+        return dict(src, kind="failing-input", invoke=case.get("invoke", 0), dm=case["dm"], steps=real["steps"],
+                    observed="all steps with result 1 accepted %s, code generated; %s" % (real["results"], bad),
+                    expected="the parallelisation of the uncoloured loop is refused (or generation refuses)",
+                    schedule=real["final"], da_assumption=real["da_assumption"])
+    if not agreed or real["da_assumption"]:
+        what = "real transformations differ from C23.runSkip" if not agreed else \
+            "assumption on the generic dependence analysis broken: " + "; ".join(real["da_assumption"][:2])
+        chk.correspondence_broken(what, dict(src, init=real["init"], steps=real["steps"], dm=case["dm"],
+                                             invoke=case.get("invoke", 0)),
                                   mo, {"results": real["results"], "final": real["final"], "gen": real["gen"],
-                                       "messages": real["messages"]})
+                                       "messages": real["messages"], "da_assumption": real["da_assumption"]})
     return None
 
 
-def in_known_class(payload, findings):
-    """A failing input belongs to a listed finding iff the finding's classifier accepts it."""
-    for e in findings:
-        if e.get("classifier") == "readinc-uncoloured" and classify_readinc(payload):
-            return e
-    return None
+def sweep_steps(info, dm, invoke, name):
+    """Systematic sweep: `name` applied to every loop of the fresh schedule, last loop first (wrapping a later node does
+    not shift the pre-order indices of earlier ones)."""
+    from psyclone.psyir.nodes import Loop
+    psy = L.make_psy(info, dm)
+    nodes = L.statement_nodes(psy.invokes.invoke_list[invoke].schedule)
+    return [[name, [i]] for i, n in reversed(list(enumerate(nodes))) if isinstance(n, Loop)]
 
 
-def classify_readinc(payload):
-    return False   # no open finding class: the defect is repaired by fixes/C23-readinc.patch
+def n_invokes_of(info, dm=False):
+    return len(L.make_psy(info, dm).invokes.invoke_list)
 
 
 def run(chk):
-    chk.cov["rule"] = ("random histories of <=6 transformations (Dynamo0p3ColourTrans, DynamoOMPParallelLoopTrans, "
-                       "Dynamo0p3OMPLoopTrans, OMPParallelTrans, ACCLoopTrans, ACCParallelTrans, ACCKernelsTrans) with random "
-                       "targets on synthesised LFRic invokes (1-3 kernels + optional built-in; gh_inc/gh_readinc/gh_write/"
-                       "gh_readwrite/gh_read on continuous, any_space and discontinuous spaces, operators, domain kernels), "
-                       "distributed memory on and off; non-trivial = at least one accepted step; distinct by canonical JSON")
+    chk.cov["rule"] = ("(1) systematic sweep: every invoke x dm on/off x each of the 5 loop-parallelising transformations "
+                       "(DynamoOMPParallelLoopTrans, Dynamo0p3OMPLoopTrans, ACCLoopTrans, generic OMPLoopTrans, generic "
+                       "OMPParallelLoopTrans) applied to every uncoloured loop, then regions added and code generated; "
+                       "(2) random histories of <=6 transformations (those 5 + Dynamo0p3ColourTrans, OMPParallelTrans, "
+                       "ACCParallelTrans, ACCKernelsTrans) with random targets.  Invokes: synthesised LFRic kernels "
+                       "(gh_inc/gh_readinc/gh_write/gh_readwrite/gh_read on continuous, any_space and discontinuous spaces, "
+                       "operators, field vectors, all six stencil types with variable and literal extents, domain kernels, "
+                       "built-ins) and bundled test algorithms of tests/test_files/dynamo0p3 chosen to cover every feature "
+                       "class of the bundled gh_inc/gh_readinc kernels (stencils, vectors, operators, CMA, basis/quadrature/"
+                       "evaluators, mesh and reference-element properties, inter-grid); distributed memory on and off; "
+                       "non-trivial = at least one accepted step; distinct by canonical JSON")
     chk.assumptions += [
         "transformations are applied with default options (no options={'force': True}, no 'sequential')",
         "targets are statement-level nodes of the invoke schedule (children of Schedules), addressed in pre-order",
         "the generic dependence analysis (DependencyTools.can_loop_be_parallelised) answers False without raising for an LFRic "
-        "loop over cells whose kernel has an INC/READINC argument and for reduction built-ins (exercised by every ACCLoopTrans case)",
+        "loop over cells whose kernel has an INC/READINC argument; CHECKED on every case (on the fresh schedule) and by the "
+        "systematic sweep - a breach makes ACCLoopTrans / generic OMP transformations accept and is reported as failing input",
         "one kernel per loop (LFRicLoopFuseTrans is outside the quantifier of C23)",
         "'parallel loop' = the loop directly below an OMP DO / PARALLEL DO / ACC LOOP directive; a serial loop replicated inside a "
         "parallel region is not in the statement",
@@ -328,53 +345,74 @@ def run(chk):
     L.setup_api()
     rng = chk.rng
     thorough = chk.tier == "thorough"
-    n_invokes = 60 if thorough else 12
-    per_invoke = 600 if thorough else 160
-    dist = {"accepted_steps": 0, "refused_steps": 0, "gen_ok": 0, "gen_fail": 0, "crash_instead_of_refusal": 0}
+    n_synth = 50 if thorough else 8
+    n_bundled = 60 if thorough else 14
+    per_invoke = 500 if thorough else 70
+    dist = {"accepted_steps": 0, "refused_steps": 0, "gen_ok": 0, "gen_fail": 0, "crash_instead_of_refusal": 0,
+            "da_assumption_broken": 0}
     found = None
     findings = common.known_findings("C23")
     with L.Workdir() as wd:
-        # corpus of past failures first
+        # ---- sources ------------------------------------------------------------------
+        sources = []     # (case template, info)
         cdir = os.path.join(common.ROOT, "corpus", "C23")
         corpus = []
         if os.path.isdir(cdir):
             for fn in sorted(os.listdir(cdir)):
                 if fn.endswith(".json"):
                     corpus.append(json.load(open(os.path.join(cdir, fn))))
-        invokes = []
         for j, calls in enumerate(FIXED_INVOKES):
-            invokes.append((FIXED_KERNELS, calls, L.parse_invoke(wd.path, FIXED_KERNELS, calls, f"f{j}")))
-        for j in range(n_invokes):
+            src = {"kernels": FIXED_KERNELS, "calls": calls}
+            sources.append((src, L.parse_source(wd.path, src, f"f{j}")))
+        for j in range(n_synth):
             kernels = [random_kernel(rng, i) for i in range(3)]
-            calls = random_calls(rng, kernels)
+            src = {"kernels": kernels, "calls": random_calls(rng, kernels)}
             try:
-                invokes.append((kernels, calls, L.parse_invoke(wd.path, kernels, calls, f"r{j}")))
+                sources.append((src, L.parse_source(wd.path, src, f"r{j}")))
             except Exception as e:   # the generator only emits valid metadata
-                raise common.Infra(f"synthesised invoke rejected by the parser: {e}\n{kernels}\n{calls}")
+                raise common.Infra(f"synthesised invoke rejected by the parser: {e}\n{src}")
+        algs = L.catalogue()
+        chosen = L.select_bundled(algs, n_bundled, rng)
+        skipped = []
+        for fn in chosen:
+            try:
+                info = L.parse_bundled(fn)
+                n_invokes_of(info)
+            except Exception as e:   # several bundled files are deliberately invalid
+                skipped.append(fn)
+                continue
+            sources.append(({"alg_file": fn}, info))
+        chk.cov["bundled_algorithms"] = [fn for fn in chosen if fn not in skipped]
+        chk.cov["bundled_skipped_unparsable"] = skipped
+        chk.cov["bundled_feature_classes"] = sorted(set().union(*[algs[f] for f in chosen if f not in skipped])) if chosen else []
+        if len(chosen) - len(skipped) < min(8, len(chosen)):
+            raise common.Infra(f"only {len(chosen) - len(skipped)} of {len(chosen)} bundled LFRic algorithms could be parsed")
         cases, reals = [], []
+        # ---- corpus first -------------------------------------------------------------
         for ci, c in enumerate(corpus):
-            info = L.parse_invoke(wd.path, c["kernels"], [tuple(x) for x in c["calls"]], f"c{ci}")
-            case = {"kernels": c["kernels"], "calls": c["calls"], "dm": c["dm"]}
-            cases.append(case)
-            reals.append(run_history_real(info, c["dm"], steps=c["steps"]))
-        # directed histories on every invoke: try to parallelise every loop uncoloured, with each transformation
-        for kernels, calls, info in invokes:
-            for dm in (False, True):
-                for name in ("omp_parallel_do", "omp_do", "acc_loop"):
-                    psy = L.make_psy(info, dm)
-                    nodes = L.statement_nodes(psy.invokes.invoke_list[0].schedule)
-                    from psyclone.psyir.nodes import Loop
-                    loops = [i for i, n in enumerate(nodes) if isinstance(n, Loop)]
-                    # last loop first: wrapping a later node does not shift the indices of earlier ones
-                    steps = [[name, [i]] for i in reversed(loops)]
-                    cases.append({"kernels": kernels, "calls": calls, "dm": dm})
-                    reals.append(run_history_real(info, dm, steps=steps))
-        for kernels, calls, info in invokes:
+            src = case_src(c)
+            info = L.parse_source(wd.path, src, f"c{ci}")
+            cases.append(dict(src, dm=c["dm"], invoke=c.get("invoke", 0)))
+            reals.append(run_history_real(info, c["dm"], steps=c["steps"], invoke=c.get("invoke", 0), complete=True))
+        # ---- systematic sweep ---------------------------------------------------------
+        n_sweep = 0
+        for src, info in sources:
+            for inv in range(min(n_invokes_of(info), 3 if not thorough else 8)):
+                for dm in (False, True):
+                    for name in L.PAR_LOOP_TRANS:
+                        steps = sweep_steps(info, dm, inv, name)
+                        cases.append(dict(src, dm=dm, invoke=inv))
+                        reals.append(run_history_real(info, dm, steps=steps, invoke=inv, complete=True))
+                        n_sweep += 1
+        # ---- random histories ---------------------------------------------------------
+        for src, info in sources:
+            ninv = n_invokes_of(info)
             for _ in range(per_invoke):
                 dm = rng.random() < 0.5
-                cases.append({"kernels": kernels, "calls": calls, "dm": dm})
+                inv = rng.randrange(ninv)
+                cases.append(dict(src, dm=dm, invoke=inv))
                 reals.append(run_history_real(info, dm, rng=rng, nsteps=rng.randint(1, 6), bias=rng.choice([0.0, 0.6]),
-                                              complete=rng.random() < 0.6))
+                                              complete=rng.random() < 0.6, invoke=inv))
         model = driver("C23", [model_line(r["init"], r["steps"]) for r in reals]) if proof_ok or _driver_exists() else None
         for idx, (case, real) in enumerate(zip(cases, reals)):
             mo = model[idx] if model is not None else "no-model"
@@ -383,14 +421,20 @@ def run(chk):
                 found = minimise(wd, payload)
                 break
     chk.cov["distribution"] = dist
+    chk.cov["invokes"] = len(sources)
+    chk.cov["sweep_histories"] = n_sweep
     chk.cov["phase_s"] = {"lean_build_and_audit_incl_lock_wait": round(t_lean, 1), "cases": round(time.time() - t0 - t_lean, 1)}
-    chk.cov["invokes"] = len(FIXED_INVOKES) + n_invokes
     if found:
         chk.violation(found)
     # known findings (none open: the READINC defect is repaired by the fix patch); replay them if listed
     for e in findings:
         if replay(dict(e["witness"]), quiet=True) == 1:
             chk.known(e["what"])
+
+
+def in_known_class(payload, findings):
+    """A failing input belongs to a listed finding iff the finding's classifier accepts it (no open class for C23)."""
+    return None
 
 
 def _driver_exists():
@@ -400,16 +444,17 @@ def _driver_exists():
 def minimise(wd, payload):
     """Shrink the failing history: drop steps while the failure persists."""
     steps = payload["steps"]
-    info = L.parse_invoke(wd.path, payload["kernels"], [tuple(c) for c in payload["calls"]], "min")
+    src = case_src(payload)
+    inv = payload.get("invoke", 0)
+    info = L.parse_source(wd.path, src, "min")
 
     def fails(sts):
         try:
-            r = run_history_real(info, payload["dm"], steps=sts)
+            r = run_history_real(info, payload["dm"], steps=sts, invoke=inv)
         except Exception:
             return False
         return r["gen"] == "ok" and bool(r["unsafe_final"] or r["colours_in_omp"])
-    # keep only accepted steps first
-    r = run_history_real(info, payload["dm"], steps=steps)
+    r = run_history_real(info, payload["dm"], steps=steps, invoke=inv)
     acc = [s for s, ok in zip(steps, r["results"]) if ok]
     if fails(acc):
         steps = acc
@@ -426,11 +471,12 @@ def minimise(wd, payload):
                     break
             if changed:
                 break
-    used = sorted({c[1] for c in payload["calls"] if c[0] == "kern"})
-    kernels = [payload["kernels"][i] for i in used]
-    calls = [["kern", used.index(c[1])] if c[0] == "kern" else list(c) for c in payload["calls"]]
-    out = dict(payload, steps=steps, kernels=kernels, calls=calls)
-    r = run_history_real(info, payload["dm"], steps=steps)
+    out = dict(payload, steps=steps)
+    if not src.get("alg_file"):
+        used = sorted({c[1] for c in payload["calls"] if c[0] == "kern"})
+        out["kernels"] = [payload["kernels"][i] for i in used]
+        out["calls"] = [["kern", used.index(c[1])] if c[0] == "kern" else list(c) for c in payload["calls"]]
+    r = run_history_real(info, payload["dm"], steps=steps, invoke=inv)
     out["schedule"] = r["final"]
     out["observed"] = "steps accepted %s, code generated; %s" % (r["results"], r["unsafe_final"] or r["colours_in_omp"])
     return out
@@ -447,32 +493,33 @@ def replay_broken(payload):
             continue
         c = b["case"]
         with L.Workdir() as wd:
-            info = L.parse_invoke(wd.path, c["kernels"], [tuple(x) for x in c["calls"]], "replay")
-            r = run_history_real(info, c["dm"], steps=c["steps"])
+            info = L.parse_source(wd.path, case_src(c), "replay")
+            r = run_history_real(info, c["dm"], steps=c["steps"], invoke=c.get("invoke", 0))
         mo = driver("C23", [model_line(r["init"], r["steps"])])[0]
         m = parse_sx(mo) if mo.startswith("(") else None
         agreed = m is not None and m[0] == r["results"] and m[3] == r["final"] and not (r["gen"] == "ok" and m[1] == 0)
+        agreed = agreed and not r["da_assumption"]
         print("steps:", r["steps"], "\nreal results:", r["results"], "gen:", r["gen"], "\nreal final:", r["final"], "\nmodel:", mo,
-              "\n->", "agree" if agreed else "DISAGREE")
+              "\ndependence-analysis assumption:", r["da_assumption"] or "holds", "\n->", "agree" if agreed else "DISAGREE")
         still += 0 if agreed else 1
     return 1 if still else 0
 
 
 def replay(payload, quiet=False):
-    if "kernels" not in payload:
+    if "kernels" not in payload and "alg_file" not in payload:
         return replay_broken(payload)
     L.setup_api()
     with L.Workdir() as wd:
-        info = L.parse_invoke(wd.path, payload["kernels"], [tuple(c) for c in payload["calls"]], "replay")
-        r = run_history_real(info, payload["dm"], steps=payload["steps"])
+        info = L.parse_source(wd.path, case_src(payload), "replay")
+        r = run_history_real(info, payload["dm"], steps=payload["steps"], invoke=payload.get("invoke", 0))
     bad = (r["unsafe_final"] or r["colours_in_omp"]) if r["gen"] == "ok" else None
     if not quiet:
-        print("kernels:", json.dumps(payload["kernels"]))
-        print("calls:", payload["calls"], "dm:", payload["dm"])
+        print("source:", json.dumps(case_src(payload)), "invoke:", payload.get("invoke", 0), "dm:", payload["dm"])
         print("steps:", r["steps"], "results:", r["results"])
         print("messages:", r["messages"])
         print("final schedule:", r["final"])
         print("generation:", r["gen"])
+        print("generic dependence analysis on the fresh schedule:", r["da_assumption"] or "answers False without raising")
         print("observed:", bad or "schedule is Safe (or generation refused)")
         print("expected: every parallel loop with an INC/READINC argument on a continuous or unknown space is a 'colour' loop; "
               "no loop over colours inside an OpenMP parallel region")
